@@ -136,7 +136,14 @@ fn check_instance(case: &C14Case, st: &Store, allowed: &[Model], what: &str) -> 
     let got = st.state();
     let entries = match st.read_all() {
         Outcome2::Ok(e) => e,
-        Outcome2::Err(e) => return Err(v(case, "reopen_read_error", format!("{}: read failed: {}", what, e))),
+        Outcome2::Err(e) => {
+            if std::env::var("RLMON_DEBUG").is_ok() {
+                eprintln!("DEBUG reopen_read_error stat {}", st.rl().stat());
+                eprintln!("DEBUG resident {:?}", st.rl().verif_cache_resident());
+                eprintln!("DEBUG dump {}", st.dump_live().unwrap_or_default());
+            }
+            return Err(v(case, "reopen_read_error", format!("{}: read failed: {}", what, e)));
+        }
         Outcome2::Panic(p) => return Err(v(case, "reopen_read_panic", format!("{}: read panicked: {}", what, p))),
     };
     for (i, m) in allowed.iter().enumerate().rev() {
@@ -191,7 +198,7 @@ pub fn run_one(case: &C14Case) -> Result<(C14Stats, Option<Viol>), RunErr> {
                         return Err(RunErr::Viol(v(case, "no_ack", "worker idle but the last flush was never acknowledged".into())));
                     }
                     Settle::Dead => return Err(RunErr::Inconclusive("worker died".into())),
-                    Settle::Timeout => return Err(RunErr::Inconclusive("worker did not settle".into())),
+                    Settle::Timeout | Settle::Stuck(_) => return Err(RunErr::Inconclusive("worker did not settle".into())),
                 }
                 if guard > 100_000 {
                     return Err(RunErr::Inconclusive("ack never came".into()));
@@ -202,10 +209,13 @@ pub fn run_one(case: &C14Case) -> Result<(C14Stats, Option<Viol>), RunErr> {
             }
             // --- writes after the last acknowledged flush, never flushed
             let mut allowed: Vec<Model> = vec![r.m.clone()];
+            // a term above every term the history mentioned: after a truncation back to the purge point, last.term + 1
+            // can lie at or below a removed log id, which is the pattern of C07's known finding D7 (tiny caches here)
+            let top_term = r.recs.iter().map(|x| x.max_term()).max().unwrap_or(0) + 1;
             for i in 0..case.tail_writes {
                 let next = match r.m.st.last {
-                    Some(l) => (l.0 + 1, l.1 + 1),
-                    None => (1, 0),
+                    Some(l) => (top_term.max(l.0 + 1), l.1 + 1),
+                    None => (top_term, r.m.st.purged.map(|p| p.1 + 1).unwrap_or(0)),
                 };
                 // mostly appends; sometimes a purge of an entry that is still there (it may make closed chunks obsolete)
                 let purge_target = r.m.log.values().map(|e| e.0).filter(|id| Some(*id) > r.m.st.purged).next();
@@ -487,9 +497,10 @@ pub fn run_one(case: &C14Case) -> Result<(C14Stats, Option<Viol>), RunErr> {
             // --- the new instance keeps working: append, purge, flush, ack
             let mut m2 = model.clone();
             let last = m2.st.last;
+            // (term above every term of the history, see the tail writes)
             let next = match last {
-                Some(l) => (l.0.max(1), l.1 + 1),
-                None => (1, 0),
+                Some(l) => (top_term.max(l.0 + 1) + 1, l.1 + 1),
+                None => (top_term + 1, m2.st.purged.map(|p| p.1 + 1).unwrap_or(0)),
             };
             let ops = vec![Op::Append(vec![(next, format!("c14-{}", next.1))]), Op::Purge(next)];
             for op in &ops {
